@@ -65,11 +65,17 @@ def gen_guides(rng, col):
     out = []
     for k in range(n):
         kind = rng.choice(['straight', 'straight', 'tilted', 'tilted', 'sbend', 'arc', 'coupler', 'bridge', 'ends_inside',
-                           'starts_inside', 'ends_outside', 'edge', 'island'])
+                           'starts_inside', 'ends_outside', 'edge', 'island', 'kink', 'kink'])
         y = round(rng.uniform(y0 + 0.05 * H, y1 - 0.05 * H), 4)
         g = {'kind': kind, 'y': y, 'xa': round(x0 - rng.choice([0.5, 1.0, 0.2]), 4), 'xb': round(x1 + rng.choice([0.5, 1.0, 0.2]), 4)}
         if kind == 'tilted':
             g['dy'] = round(rng.uniform(-0.6, 0.6) * H, 4)
+        elif kind == 'kink':
+            # three or four points: straight to a point inside the column, then tilted (point counts 3 and 4 are the ones a
+            # layout test on the array shape can confuse with the number of coordinates)
+            g['dy'] = round(rng.uniform(-0.3, 0.3) * H, 4)
+            g['xs'] = round(rng.uniform(x0 + 0.2 * (x1 - x0), x0 + 0.8 * (x1 - x0)), 4)
+            g['n'] = rng.choice([3, 3, 4])
         elif kind in ('sbend', 'arc', 'bridge'):
             g['dy'] = round(rng.choice([-1, 1]) * rng.uniform(0.03, 0.3) * H, 4)
             g['xs'] = round(rng.uniform(x0 - 0.1, x0 + 0.3 * (x1 - x0)), 4)
@@ -90,7 +96,7 @@ def gen_guides(rng, col):
             g['xa'], g['xb'] = round(xm - 0.08 * (x1 - x0), 4), round(xm + 0.08 * (x1 - x0), 4)
         out.append(g)
     # at least one guide passes through the column
-    if not any(g['kind'] in ('straight', 'tilted', 'sbend', 'arc', 'coupler', 'bridge') for g in out):
+    if not any(g['kind'] in ('straight', 'tilted', 'sbend', 'arc', 'coupler', 'bridge', 'kink') for g in out):
         out.append({'kind': 'straight', 'y': round(rng.uniform(y0 + 0.2 * H, y1 - 0.2 * H), 4), 'xa': x0 - 0.5, 'xb': x1 + 0.5})
     return out
 
@@ -110,6 +116,14 @@ def build_guide(g):
         return [straight(g['y'], g['xa'], g['xb'])]
     if kind == 'tilted':
         return [straight(g['y'], g['xa'], g['xb'], g['dy'])]
+    if kind == 'kink':
+        wg = Waveguide(**par)
+        wg.start([g['xa'], g['y'], 0.035]).linear([g['xs'], g['y'], 0.035], mode='ABS')
+        if g.get('n', 3) == 4:
+            wg.linear([(g['xs'] + g['xb']) / 2, g['y'] + g['dy'], 0.035], mode='ABS')
+        wg.linear([g['xb'], g['y'] + g['dy'], 0.035], mode='ABS')
+        wg.end()
+        return [wg]
     if kind in ('sbend', 'arc', 'bridge'):
         wg = Waveguide(**par)
         wg.start([g['xa'], g['y'], 0.035]).linear([g['xs'], g['y'], 0.035], mode='ABS')
